@@ -27,9 +27,12 @@ if TYPE_CHECKING:
     Dims = str | Iterable[Hashable] | None
 
 
-def _restore_dim_order(result, obj, by, no_groupby_reorder=False):
+def _restore_dim_order(result, obj, by, no_groupby_reorder=False, group_name=None):
+    # the group dimension is named after `by`, with a "_bins" suffix when binning
+    group_name = by.name if group_name is None else group_name
+
     def lookup_order(dimension):
-        if dimension == by.name:
+        if dimension == group_name:
             if no_groupby_reorder:
                 return -1e6  # some arbitrarily low value
             if by.ndim == 1:
@@ -513,6 +516,7 @@ def xarray_reduce(
                     template,
                     by_da[0],
                     no_groupby_reorder=no_groupby_reorder,
+                    group_name=group_names[0],
                 )
 
     if missing_dim:
